@@ -21,7 +21,7 @@ pub static DEF: PropertyDef = PropertyDef {
            reset_state; (c) one instance: load the same save. Live bytes after cycle N must equal live bytes after cycle N/2 (the first cycles may initialise thread-locals and \
            grow reusable buffers). Non-trivial = the history delivered at least one line and followed at least one divert; distinct = hash of program+history.",
     assumptions: &["the harness keeps no allocation of its own alive across the measured region except buffers whose capacity is stable over identical cycles (checked by a control cycle that never touches the library)"],
-    runs_quick: 1500,
+    runs_quick: 6000,
     runs_thorough: 80000,
     exhaustive_note: "none (sampled programs and histories)",
     generate,
